@@ -151,6 +151,7 @@ type planned struct {
 	dirID int // id of the companion directive-form job (or -1)
 	evID  int // id of the companion ReportEvent job (or -1)
 	base  int // id of the job with the empty cost map (same mask), or -1
+	altID int // companion job (no-event form), or -1
 }
 
 type plan struct {
@@ -186,7 +187,7 @@ func (pl *plan) want(src *Src, j Job, rels ...string) *planned {
 	k := jobKey(j)
 	pc := pl.caseIdx[k]
 	if pc == nil {
-		pc = &planned{src: src, job: pl.jobs[id], dirID: -1, evID: -1, base: -1}
+		pc = &planned{src: src, job: pl.jobs[id], dirID: -1, evID: -1, base: -1, altID: -1}
 		pl.caseIdx[k] = pc
 		pl.cases = append(pl.cases, pc)
 	}
@@ -208,6 +209,10 @@ var allMasks = []int{0, 1, 2, 3, 4, 5, 6, 7, 8, 9, 10, 11, 12, 13, 14, 15}
 
 // CostPool: names of the cost maps of the driver (harness: verifCosts).
 var CostPool = []string{"", "name", "neg", "zero", "huge", "nan"}
+
+var evRels = []string{"ev-dump", "ev=noev", "ev=noev.try", "ev-events"}
+
+var tryRels = []string{"try-sound", "try=eval", "try-mono", "try-K"}
 
 var c02Rels = []string{"U-if-value", "U-if-AllOK", "LR-if-value", "directive=options"}
 
@@ -238,6 +243,34 @@ func newPlan(s *Selection, ts TierSel, srcs []*Src) *plan {
 		if s.has("eval=LR") {
 			pl.want(src, Job{Src: text, Mask: 0, Undef: undef}, "eval=LR")
 		}
+		if s.has("trace") {
+			for _, m := range masks {
+				pl.want(src, Job{Src: text, Mask: m, Undef: undef}, "trace")
+			}
+		}
+		if rels := s.hasAny([]string{"compile-calls", "eval-twice"}); len(rels) > 0 {
+			for _, m := range masks {
+				pl.want(src, Job{Src: text, Mask: m, Undef: undef}, rels...)
+			}
+		}
+		if s.has("err-reached") {
+			for _, m := range masks {
+				if m&8 == 0 {
+					pl.want(src, Job{Src: text, Mask: m, Undef: undef}, "err-reached")
+				}
+			}
+		}
+		if rels := s.hasAny(evRels); len(rels) > 0 {
+			for _, m := range masks {
+				pc := pl.want(src, Job{Src: text, Mask: m, Undef: undef, Ev: true}, rels...)
+				pc.altID = pl.addJob(Job{Src: text, Mask: m, Undef: undef})
+			}
+		}
+		if rels := s.hasAny(tryRels); len(rels) > 0 {
+			for _, m := range masks {
+				pl.want(src, Job{Src: text, Mask: m, Undef: undef}, rels...)
+			}
+		}
 		if rels := s.hasAny(c02Rels); len(rels) > 0 {
 			for _, m := range masks {
 				cs := []string{""}
@@ -262,7 +295,56 @@ func newPlan(s *Selection, ts TierSel, srcs []*Src) *plan {
 			}
 		}
 	}
+	if s.has("eval=LR.bound") {
+		for _, x := range C10Family {
+			src, err := ParseSrc(x, true)
+			if err != nil {
+				panic("C10 family: " + x + ": " + err.Error())
+			}
+			for _, m := range masks {
+				if m&8 == 0 {
+					pl.want(src, Job{Src: src.String(), Mask: m, Undef: UsesUndef(src)}, "eval=LR.bound")
+				}
+			}
+		}
+	}
 	return pl
+}
+
+// C10Family: failing constant sub-expressions under and/or/if guards (no
+// absorbing constant after a failing operand: there Compile may legitimately
+// drop the failing operand, C10's last clause).
+var C10Family = []string{
+	`(and b0 (> (/ 1 0) 1))`,
+	`(or b0 (eq (/ 1 0) 1))`,
+	`(if b0 (> (/ 1 0) 0) b1)`,
+	`(if b0 b1 (> (% 1 0) 0))`,
+	`(and (> (/ 1 0) 1) b0)`,
+	`(or (not 1) b0)`,
+	`(and b0 (g 0))`,
+	`(or b0 (g 0))`,
+	`(if (g 0) b0 b1)`,
+	`(if (g 1) b0 (g 0))`,
+	`(and b0 (or b1 (> (/ 1 0) 1)))`,
+	`(or b0 (and b1 (> (% 7 0) 1)) b2)`,
+	`(if (> (/ 1 0) 1) b0 b1)`,
+	`(+ 1 (/ 1 0))`,
+	`(+ (/ 1 0) (% 2 0))`,
+	`(and b0 (eq (+ 1 (/ 1 0)) 2))`,
+	`(and (> (/ 6 2) 1) b0)`,
+	`(and (g 1) b0)`,
+	`(and (g 1) (g 0))`,
+	`(or (g 0) b0)`,
+	`(eq (fi 1) 2)`,
+	`(and (fb 1) b0)`,
+	`(and b0 (fb (/ 1 0)))`,
+	`(or b0 (> (+ "a" 1) 0))`,
+	`(and b0 (between 1 0 "a"))`,
+	`(and b0 (in 1 ("a" "b")))`,
+	`(if b0 (if b1 (> (/ 1 0) 1) b2) b1)`,
+	`(and b0 (not (> (/ 1 0) 1)))`,
+	`(and (or b0 (> (/ 1 0) 1)) (or b1 (> (% 1 0) 1)))`,
+	`(xor b0 (> (/ 1 0) 1))`,
 }
 
 func (pl *plan) generate(cx *Checker, progs map[int]*XProg) []*core.Obl {
@@ -276,6 +358,9 @@ func (pl *plan) generate(cx *Checker, progs map[int]*XProg) []*core.Obl {
 			defer wg.Done()
 			defer func() { <-sem }()
 			c := &Case{Src: pc.src, Text: pc.job.Src, Job: pc.job, Prog: progs[pc.job.ID], Cfg: ConfigName(pc.job.Mask, pc.job.Ev, pc.job.Costs)}
+			if pc.altID >= 0 {
+				c.Alt = progs[pc.altID]
+			}
 			var obls []*core.Obl
 			co := cx.CompileObl(c)
 			obls = append(obls, co)
@@ -291,6 +376,32 @@ func (pl *plan) generate(cx *Checker, progs map[int]*XProg) []*core.Obl {
 				switch rel {
 				case "eval=LR":
 					obls = append(obls, cx.EvalLR(c)...)
+				case "trace":
+					obls = append(obls, cx.Trace(c)...)
+				case "ev-dump":
+					obls = append(obls, cx.EvDump(c))
+				case "ev=noev":
+					obls = append(obls, cx.EvSame(c, "Eval")...)
+				case "ev=noev.try":
+					obls = append(obls, cx.EvSame(c, "TryEval")...)
+				case "ev-events":
+					obls = append(obls, cx.Events(c)...)
+				case "compile-calls":
+					obls = append(obls, cx.CompileCalls(c))
+				case "eval-twice":
+					obls = append(obls, cx.EvalTwice(c)...)
+				case "err-reached":
+					obls = append(obls, cx.ErrReached(c, false)...)
+				case "eval=LR.bound":
+					obls = append(obls, cx.ErrReached(c, true)...)
+				case "try-sound":
+					obls = append(obls, cx.TrySound(c)...)
+				case "try=eval":
+					obls = append(obls, cx.TryAgree(c)...)
+				case "try-mono":
+					obls = append(obls, cx.TryMono(c)...)
+				case "try-K":
+					obls = append(obls, cx.TryK(c)...)
 				case "directive=options":
 					obls = append(obls, cx.DirectiveObl(c, progs[pc.dirID]))
 				case "U-if-value", "U-if-AllOK", "LR-if-value":
